@@ -18,6 +18,7 @@ func usage() {
   lfscheck dump [-repo /repo] [-deep] func...
   lfscheck funcs [-repo /repo]
   lfscheck explain <replay.json>
+  lfscheck sweep [-repo /repo]      all properties on one load (used by reseed_par.py)
   lfscheck selftest [-property Cnn]`)
 	os.Exit(2)
 }
@@ -29,6 +30,8 @@ func main() {
 	switch os.Args[1] {
 	case "check":
 		os.Exit(cmdCheck(os.Args[2:]))
+	case "sweep":
+		os.Exit(cmdSweep(os.Args[2:]))
 	case "dump":
 		fs := flag.NewFlagSet("dump", flag.ExitOnError)
 		repo := fs.String("repo", "/repo", "repository")
